@@ -312,6 +312,22 @@ def gen(props, tier, rng):
         if 'eq' in ops: yield f'buf eq {ex} {ey}'
         if 'and' in ops and (len(x[0]) == len(y[0]) or rng.random() < 0.02):
             yield f'buf and {ex} {ey}'; yield f'buf or {ex} {ey}'; yield f'buf xor {ex} {ey}'
+    if 'eq' in ops or 'hash' in ops:
+        # operands built from NON-canonical content (too long, too short, dirty padding bits, content for a zero-length buffer):
+        # equality and hashing are about the bits the constructor keeps, not about the bytes it was handed
+        junk = []
+        for n in (0, 1, 3, 4, 7, 8, 9, 12):
+            for sd in 'LR':
+                for c in ('-', '00', 'ff', '0000', 'ffff', 'a5c3', '01', '80', 'f0f0f0'):
+                    junk.append(f'{c}:{n}:{sd}')
+        for a in junk:
+            if 'hash' in ops: yield f'buf hash {a}'
+            if 'eq' in ops:
+                for b in rng.sample(junk, 6):
+                    yield f'buf eq {a} {b}'
+                c, n, sd = a.split(':')
+                bits = spec.ctor_bits(b'' if c == '-' else bytes.fromhex(c), int(n), sd)
+                yield f"buf eq {a} {enc_bits(bits, 'L')}"; yield f"buf eq {enc_bits(bits, 'R')} {a}"
     if 'eqbytes' in ops:
         for x in small:
             yield f"buf eqbytes {E(x)} {spec.canonical_content(x[0], x[1]).hex() or '-'}"
